@@ -295,7 +295,7 @@ class Hist:
                 self.plan.append(None)
                 self.dump(o)          # the OTHER input of the merge must be untouched as well
             else:
-                self.add("errstring %d" % r.randint(0, 30), lambda ev: [{"e": "query"}])
+                self.add("errstring %d" % r.randint(0, 24), lambda ev: [{"e": "query"}])      # codes the library defines (others: C13, single-threaded)
 
     def free(self, h):
         self.add("free %d" % h, lambda ev, h=h: [{"e": "free", "h": h, "ret_null": ev["ret_null"]}])
